@@ -337,3 +337,110 @@ func (w *memWalk) walk(path string, v reflect.Value, depth int) {
 		w.hit(path, "string", strData(s), len(s))
 	}
 }
+
+// StructHash digests exactly what TakeSnapshot records (pointer identities,
+// nil-versus-empty, lengths, capacities, contents; the same fields skipped),
+// without building the textual entries: the per-step check compares this and
+// takes the full snapshot only when it differs. Map entries are combined
+// commutatively, so no sorting is needed.
+func StructHash(m proto.Message) uint64 {
+	return hashWalk(reflect.ValueOf(m), 0)
+}
+
+func hmix(h, v uint64) uint64 {
+	h ^= v
+	h *= 0x9E3779B97F4A7C15
+	h ^= h >> 29
+	return h
+}
+
+func hbytes(h uint64, b []byte) uint64 {
+	for len(b) >= 8 {
+		h = hmix(h, uint64(b[0])|uint64(b[1])<<8|uint64(b[2])<<16|uint64(b[3])<<24|uint64(b[4])<<32|uint64(b[5])<<40|uint64(b[6])<<48|uint64(b[7])<<56)
+		b = b[8:]
+	}
+	for _, c := range b {
+		h = hmix(h, uint64(c)+0x100)
+	}
+	return h
+}
+
+func hashWalk(v reflect.Value, depth int) uint64 {
+	if depth > 40 {
+		return 0x7dee9
+	}
+	h := uint64(v.Kind()) + 0x51
+	switch v.Kind() {
+	case reflect.Pointer:
+		if v.IsNil() {
+			return hmix(h, 1)
+		}
+		h = hmix(h, uint64(v.Pointer()))
+		return hmix(h, hashWalk(v.Elem(), depth+1))
+	case reflect.Struct:
+		st := v.Type()
+		for i := 0; i < st.NumField(); i++ {
+			sf := st.Field(i)
+			if sf.Name == "state" || sf.Name == "sizeCache" {
+				continue
+			}
+			if sf.Tag.Get("protobuf") == "" && sf.Tag.Get("protobuf_oneof") == "" && sf.Name != "unknownFields" {
+				if k := sf.Type.Kind(); k == reflect.Struct || k == reflect.Array || k == reflect.Func {
+					continue
+				}
+			}
+			h = hmix(h, uint64(i)+0x1000)
+			h = hmix(h, hashWalk(v.Field(i), depth+1))
+		}
+		return h
+	case reflect.Interface:
+		if v.IsNil() {
+			return hmix(h, 2)
+		}
+		return hmix(h, hashWalk(v.Elem(), depth+1))
+	case reflect.Slice:
+		if v.IsNil() {
+			return hmix(h, 3)
+		}
+		h = hmix(hmix(hmix(h, uint64(v.Pointer())), uint64(v.Len())), uint64(v.Cap()))
+		if v.Type().Elem().Kind() == reflect.Uint8 {
+			return hbytes(h, v.Bytes())
+		}
+		for i := 0; i < v.Len(); i++ {
+			h = hmix(h, hashWalk(v.Index(i), depth+1))
+		}
+		return h
+	case reflect.Map:
+		if v.IsNil() {
+			return hmix(h, 4)
+		}
+		h = hmix(hmix(h, uint64(v.Pointer())), uint64(v.Len()))
+		var sum uint64
+		it := v.MapRange()
+		for it.Next() {
+			e := hashWalk(it.Key(), depth+1)
+			e = hmix(e, hashWalk(it.Value(), depth+1))
+			sum += e
+		}
+		return hmix(h, sum)
+	case reflect.String:
+		s := v.String()
+		h = hmix(hmix(h, uint64(strData(s))), uint64(len(s)))
+		for i := 0; i < len(s); i++ {
+			h = hmix(h, uint64(s[i]))
+		}
+		return h
+	case reflect.Bool:
+		if v.Bool() {
+			return hmix(h, 6)
+		}
+		return hmix(h, 5)
+	case reflect.Int, reflect.Int8, reflect.Int16, reflect.Int32, reflect.Int64:
+		return hmix(h, uint64(v.Int()))
+	case reflect.Uint, reflect.Uint8, reflect.Uint16, reflect.Uint32, reflect.Uint64, reflect.Uintptr:
+		return hmix(h, v.Uint())
+	case reflect.Float32, reflect.Float64:
+		return hmix(h, mathBits(v))
+	}
+	return h
+}
